@@ -110,11 +110,9 @@ Record trecord := {
 
 Definition dec_record_typed (strings contigs : smap) (ik : name -> option ikind)
   (fk : name -> option fkind) (hdr_samples : Z) (bs : list N) : rres trecord :=
-  match dec_record strings contigs bs with
+  match dec_record strings contigs hdr_samples bs with
   | None => RErr
   | Some (h, infos, fmts, _) =>
-    if hdr_samples <? h_n_sample h then RErr                    (* InvalidSampleCount *)
-    else
       let ns := Z.to_nat (h_n_sample h) in
       rbind (map_rres (fun kv : name * list N =>
                match ik (fst kv) with
